@@ -1,6 +1,8 @@
 import Driver.Common
 import FianoModel.Nvram.Model
 import FianoModel.Nvram.Spec
+import FianoModel.Nvram.SpecNested
+import FianoModel.Nvram.Checksum
 
 open Fiano Fiano.Nvram Driver
 
@@ -27,16 +29,26 @@ def joinWith (sep : String) : List String → String
 def showStore (pol : Nat) (s : Store) : String :=
   s!"ok {s.fso},{s.gso},{s.length},{fnv1a s.buf};G:{joinWith "." (s.guidStore.map toHex)};E:{joinWith "/" (s.entries.map (showEntry pol))}"
 
+/-- the store with the nested stores of its entries, to any depth (fuel = nesting depth bound) -/
+def showStoreDeep (pol : Nat) : Nat → Store → String
+  | 0, _ => "fuel"
+  | d + 1, s =>
+    let ent (v : NVar) : String :=
+      match nestedOf pol v with
+      | some ns => if ns.entries.isEmpty then showEntry pol v else showEntry pol v ++ "{" ++ showStoreDeep pol d ns ++ "}"
+      | none => showEntry pol v
+    s!"ok {s.fso},{s.gso},{s.length},{fnv1a s.buf};G:{joinWith "." (s.guidStore.map toHex)};E:{joinWith "/" (s.entries.map ent)}"
+
 def showErr : Err → String
   | .parse => "err" | .asm => "err" | .panic => "panic" | .fuel => "fuel"
 
 /-- run the ops on the in-memory store; one result per op; stops at the first failure -/
-def runOps (pol : Nat) : Store → List String → List String → Option (List String)
+def runOps (pol : Nat) (sh : Store → String) : Store → List String → List String → Option (List String)
   | _, [], acc => some acc.reverse
   | s, op :: ops, acc =>
     let step (r : Except Err Store) : Option (List String) :=
       match r with
-      | .ok s' => runOps pol s' ops (showStore pol s' :: acc)
+      | .ok s' => runOps pol sh s' ops (sh s' :: acc)
       | .error e => some ((showErr e :: acc).reverse)
     if op = "asm" then step (asmStore pol (depthFuel s) s)
     else if op = "compact" then step (compact pol (depthFuel s) s)
@@ -75,27 +87,40 @@ def parseVarName (s : String) : Option VarName :=
   else if s.startsWith "u" then (((dropS s 1).splitOn ".").mapM (fun (x : String) => x.toNat?)).map VarName.ucs2
   else none
 
-open Fiano.Nvram.Spec in
-def parseEntry (s : String) : Option Entry :=
-  match s.splitOn "," with
-  | ["v", f, g, n, v, x, nx] => do
-    pure (Entry.var (← f.toNat?) (← parseGuidRef g) (← parseVarName n) (← parseHex v) (← parseExt x) (← parseNext nx))
-  | ["d", f, v, x, nx] => do
-    pure (Entry.data (← f.toNat?) (← parseHex v) (← parseExt x) (← parseNext nx))
-  | ["x", a, nx, b] => do
-    pure (Entry.dead (← a.toNat?) (← nx.toNat?) (← parseHex b))
-  | _ => none
+def bytesToString (b : Bytes) : String := String.ofList (b.map (fun c => Char.ofNat c.toNat))
 
 open Fiano.Nvram.Spec in
-def parseRecipe (s : String) : Option NvStore :=
-  match s.splitOn "~" with
-  | [pol, free, gs, es] => do
-    let pol ← pol.toNat?
-    let free ← free.toNat?
-    let gs ← if gs = "-" then some [] else (gs.splitOn ".").mapM parseHex
-    let es ← if es = "-" then some [] else (es.splitOn ";").mapM parseEntry
-    pure { pol := pol, entries := es, free := free, guids := gs }
-  | _ => none
+/-- a value: hex bytes, or `n` + hex of the wire form of a nested recipe.  `fuel` bounds the
+    nesting depth (the length of the text is plenty). -/
+def parseRecipeN : Nat → String → Option NStore
+  | 0, _ => none
+  | fuel + 1, s =>
+    let parseValue (v : String) : Option NValue :=
+      if v.startsWith "n" then
+        match parseHex (dropS v 1) with
+        | some b => (parseRecipeN fuel (bytesToString b)).map NValue.store
+        | none => none
+      else (parseHex v).map NValue.raw
+    let parseEntry (e : String) : Option NEntry :=
+      match e.splitOn "," with
+      | ["v", f, g, n, v, x, nx] => do
+        pure (NEntry.var (← f.toNat?) (← parseGuidRef g) (← parseVarName n) (← parseValue v) (← parseExt x) (← parseNext nx))
+      | ["d", f, v, x, nx] => do
+        pure (NEntry.data (← f.toNat?) (← parseValue v) (← parseExt x) (← parseNext nx))
+      | ["x", a, nx, b] => do
+        pure (NEntry.dead (← a.toNat?) (← nx.toNat?) (← parseHex b))
+      | _ => none
+    match s.splitOn "~" with
+    | [pol, free, gs, es] => do
+      let pol ← pol.toNat?
+      let free ← free.toNat?
+      let gs ← if gs = "-" then some [] else (gs.splitOn ".").mapM parseHex
+      let es ← if es = "-" then some [] else (es.splitOn ";").mapM parseEntry
+      pure (NStore.mk pol es free gs)
+    | _ => none
+
+open Fiano.Nvram.Spec in
+def parseRecipe (s : String) : Option NStore := parseRecipeN (s.length + 1) s
 
 def insertSorted (x : String) : List String → List String
   | [] => [x]
@@ -107,6 +132,18 @@ def sortStrings (l : List String) : List String := l.foldl (fun acc x => insertS
 def showLive (l : List ((Bytes × Bytes) × Bytes)) : String :=
   joinWith "/" (sortStrings (l.map (fun kv => s!"{toHex kv.1.1},{toHex kv.1.2},{fnv1a kv.2}")))
 
+mutual
+  /-- sorted at every level, as `showLive` -/
+  def showDeep : List (Spec.Key × Spec.AVal) → String
+    | l => joinWith "/" (sortStrings (showDeepL l))
+  def showDeepL : List (Spec.Key × Spec.AVal) → List String
+    | [] => []
+    | (k, v) :: rest => (s!"{toHex k.1},{toHex k.2}," ++ showAVal v) :: showDeepL rest
+  def showAVal : Spec.AVal → String
+    | .bytes b => s!"={b.length}:{fnv1a b}"
+    | .vars l => "{" ++ showDeep l ++ "}"
+end
+
 def handle : List String → String
   | "run" :: pol :: img :: ops =>
     match pol.toNat?, parseHex img with
@@ -114,28 +151,61 @@ def handle : List String → String
       match parseStore pol b with
       | .error e => showErr e
       | .ok s =>
-        match runOps pol s ops [showStore pol s] with
+        match runOps pol (showStore pol) s ops [showStore pol s] with
         | some rs => joinWith " | " rs
         | none => "bad-op"
+    | _, _ => "bad-op"
+  | "rund" :: pol :: img :: ops =>
+    -- as `run`, every store shown with its nested stores
+    match pol.toNat?, parseHex img with
+    | some pol, some b =>
+      match parseStore pol b with
+      | .error e => showErr e
+      | .ok s =>
+        match runOps pol (showStoreDeep pol (b.length + 1)) s ops [showStoreDeep pol (b.length + 1) s] with
+        | some rs => joinWith " | " rs
+        | none => "bad-op"
+    | _, _ => "bad-op"
+  | ["cksum", pol, img] =>
+    -- what parseExtendedHeader reports per entry: stored checksum / expected checksum
+    match pol.toNat?, parseHex img with
+    | some pol, some b =>
+      match parseStore pol b with
+      | .error e => showErr e
+      | .ok s =>
+        joinWith "," ((storeChecksums s).map (fun c =>
+          match c with
+          | none => "-"
+          | some (st, none) => s!"{st}/-"
+          | some (st, some e) => s!"{st}/{e}"))
     | _, _ => "bad-op"
   | ["ser", r] =>
     match parseRecipe r with
     | some s => let b := s.ser; s!"{b.length} {fnv1a b}"
     | none => "bad-op"
   | ["wf", r] =>
+    -- the four groups of hypotheses of the theorems, each at every nesting level
     match parseRecipe r with
     | some s =>
-      let u := if Spec.wf s && Spec.linksOk s then toString (Spec.uniqueKeys s) else "?"
-      s!"wf={Spec.wf s} links={Spec.linksOk s} fits={Spec.fitsOk s} uniq={u}"
+      let wf := Spec.wfN s
+      let links := s.all (fun n => Spec.linksOk n.flat)
+      let fits := s.all (fun n => Spec.fitsOk n.flat)
+      let u := if wf && links then toString (s.all (fun n => Spec.uniqueKeys n.flat)) else "?"
+      s!"wf={wf} links={links} fits={fits} uniq={u}"
     | none => "bad-op"
   | ["live", r] =>
     match parseRecipe r with
-    | some s => showLive (Spec.live s)
+    | some s => showLive (Spec.live s.flat)
     | none => "bad-op"
   | ["livek", n, r] =>
     match parseHex n, parseRecipe r with
-    | some n, some s => showLive (Spec.liveK (fun x => x == n) s)
+    | some n, some s => showLive (Spec.liveK (fun x => x == n) s.flat)
     | _, _ => "bad-op"
+  | ["deep", r] =>
+    -- the tree of current variables of the recursive grammar
+    match parseRecipe r with
+    | some s => showDeep s.deepLive
+    | none => "bad-op"
   | ["ucs2dec", h] =>
     match parseHex h with
     | some b => toHex (ucs2ToUtf8 b)
